@@ -89,7 +89,7 @@ Definition tree (d : N) : disc_msg :=
 Definition c14_witness : list op :=
   [ Connect 1; AddRespCb [0%N] 0 1 0;
     Inbound 1 {| d_src := a None [0%N] 0; d_dst := a (Some 0%N) [0%N] 0; d_ctr := 1; d_ref := Some 1%N; d_ack := false;
-                 d_body := BCmd CReply (PDiscovery (tree 1)) |} ].
+                 d_body := BCmd CReply (PDiscovery (tree 1)); d_fct := 0; d_sel := 0 |} ].
 Theorem C14_pinned_nodemanagement_reply_refuted :
   exists ops, accepted_trace (judge minit (snd (run_pinned init ops))) = false.
 Proof. exists c14_witness. vm_compute. reflexivity. Qed.
@@ -97,7 +97,7 @@ Print Assumptions C14_pinned_nodemanagement_reply_refuted.
 
 (* ---- non-vacuity ---- *)
 Definition dg (src dst : faddr) (ctr : N) (ref : option N) (b : body) : dgram :=
-  {| d_src := src; d_dst := dst; d_ctr := ctr; d_ref := ref; d_ack := false; d_body := b |}.
+  {| d_src := src; d_dst := dst; d_ctr := ctr; d_ref := ref; d_ack := false; d_body := b; d_fct := 0; d_sel := 0 |}.
 Definition cl : faddr := a (Some 0%N) [1%N] 1.     (* local LoadControl client [1]:1 *)
 Definition nm : faddr := a (Some 0%N) [0%N] 0.
 Definition r1 (d : N) : faddr := a (Some d) [1%N] 1.
@@ -118,7 +118,10 @@ Definition c14_example : list op :=
     Inbound 2 (dg (a (Some 2%N) [0%N] 0) nm 28 (Some 7%N) (BCmd CReply (PUseCase 9)));    (* node management: callback 4 *)
     AddRespCb [1%N] 1 30 5; AddRespCb [1%N] 1 30 6;
     (* a result referencing 30 on both connections at once, racing with the registration of callback 7 *)
-    ParArrive [1%N; 2%N] (dg (a None [1%N] 1) cl 29 (Some 30%N) (BResult 0)) (Some 7%N) 2 ].
+    ParArrive [1%N; 2%N] (dg (a None [1%N] 1) cl 29 (Some 30%N) (BResult 0)) (Some 7%N) 2;
+    AddRespCb [1%N] 1 40 0; AddRespCb [1%N] 1 41 1;
+    (* the results for 40 and 41 back to back: each callback with its own reference, the result callback twice *)
+    SeqArrive [ (1%N, dg (r1 1) cl 31 (Some 40%N) (BResult 0)); (2%N, dg (r1 2) cl 32 (Some 41%N) (BResult 5)) ] ].
 Example C14_nonvacuous :
   map snd (skipn 6 (snd (run init c14_example))) =
     [ [ORetB true]; [ORetB true]; [ORetB false]; [ORetB true]; []; [ORetB true];
@@ -131,6 +134,9 @@ Example C14_nonvacuous :
       [OInvoke 4 [0%N] 0 7 2 [0%N] 0 9];
       [ORetB true]; [ORetB true];
       [OInvoke 5 [1%N] 1 30 0 [1%N] 1 0; OInvoke 6 [1%N] 1 30 0 [1%N] 1 0; OInvoke 3 [1%N] 1 30 0 [1%N] 1 0;
-       OInvoke 3 [1%N] 1 30 0 [1%N] 1 0; ORetB true; OInvoke 7 [1%N] 1 30 0 [1%N] 1 0; OInvoke 3 [1%N] 1 30 0 [1%N] 1 0] ] /\
+       OInvoke 3 [1%N] 1 30 0 [1%N] 1 0; ORetB true; OInvoke 7 [1%N] 1 30 0 [1%N] 1 0; OInvoke 3 [1%N] 1 30 0 [1%N] 1 0];
+      [ORetB true]; [ORetB true];
+      [OInvoke 0 [1%N] 1 40 1 [1%N] 1 0; OInvoke 3 [1%N] 1 40 1 [1%N] 1 0;
+       OInvoke 1 [1%N] 1 41 2 [1%N] 1 5; OInvoke 3 [1%N] 1 41 2 [1%N] 1 5] ] /\
   accepted_trace (judge minit (snd (run init c14_example))) = true.
 Proof. vm_compute. split; reflexivity. Qed.
